@@ -1,6 +1,7 @@
 package sim
 
 import (
+	"sync/atomic"
 	"encoding/binary"
 	"encoding/json"
 	"fmt"
@@ -361,6 +362,10 @@ func pickTarget(prop string, seed uint64) string {
 	return "v5"
 }
 
+// CurIndex is the global run index a worker is executing (diagnostics only: the memory safety
+// net names it when it gives up).
+var CurIndex atomic.Int64
+
 // RunHistWorker is the sequential-history engine loop (C09, C04).
 func RunHistWorker(p Params) *Summary {
 	start := time.Now()
@@ -376,6 +381,7 @@ func RunHistWorker(p Params) *Summary {
 		}
 		seed := RunSeed(p.VerifSeed, p.Prop, gi)
 		target := pickTarget(p.Prop, seed)
+		CurIndex.Store(gi)
 		sc, faults := GenHist(seed, p.Prop, target)
 		t0 := time.Now()
 		r := Run(sc)
